@@ -3,6 +3,8 @@ import RosuModel.Model.BuilderWire
 import RosuModel.Model.Convert
 import RosuModel.Model.DecodeWire
 import RosuModel.Model.DetWire
+import RosuModel.Model.AttrsWire
+import RosuModel.Model.ModsWire
 
 open Rosu
 
@@ -25,6 +27,11 @@ def handle (line : String) : String :=
   | ["BPM", last, tps] => DetWire.handleBpm last tps
   | ["OSU", seed, ops] => DetWire.handleOsu seed ops
   | ["CS", seed, ops] => DetWire.handleCs seed ops
+  | "ATTR" :: args => Attrs.handleAttr args
+  | ["MODS", sp, mode, bits] => Mods.handleMods sp mode bits
+  | ["ORD", mode, bits] => Mods.handleOrd mode bits
+  | ["LAZER", mode, bits, kind, speed, ar, cs, hp, od] => Mods.handleLazer mode bits kind speed ar cs hp od
+  | ["GCR", mode, bits, kind, speed, clock] => Mods.handleGcr mode bits kind speed clock
   | _ => "bad-op"
 
 partial def loop (h : IO.FS.Stream) (out : IO.FS.Stream) : IO Unit := do
